@@ -50,7 +50,7 @@ def type_head(t):
     """`lterm::LTerm<U, E>` -> `LTerm`; `&'a mut Foo<T>` -> `Foo`; `dyn Tr<U>` -> `dyn Tr`."""
     t = t.strip()
     t = re.sub(r"^&('\w+ )?(mut )?", '', t)
-    if t.startswith('(') and t.endswith(')') and mir.match_paren(t, 0) == len(t) - 1 and ',' not in mir._strip_nested(t[1:-1]):
+    if t.startswith('(') and t.endswith(')') and mir.match_paren(t, 0) == len(t) - 1 and ',' not in strip_generics(mir._strip_nested(t[1:-1])):
         t = t[1:-1].strip()
     dyn = ''
     if t.startswith('dyn '):
@@ -353,6 +353,7 @@ class Ctx(object):
         self.notes = {}
         self.solver_calls = 0
         self.rc_tag = 0
+        self.deferred = []      # (condition, panic message): checked once at the end of the path
 
     def fresh(self, base):
         self.counter += 1
@@ -376,13 +377,34 @@ class Ctx(object):
         self.pc.append(cond)
         self.solver.add(cond)
 
+    def query(self, *extra, long_ms=120000, fresh=False):
+        """Satisfiability of path condition + extra. Returns (z3 result, model or None).
+        The incremental solver is tried first with a short time-out; if it gives up, a fresh
+        (non-incremental, fully preprocessed) solver decides the query."""
+        extra = [e for e in extra if e is not True]
+        if any(e is False for e in extra):
+            return z3.unsat, None
+        self.solver_calls += 1
+        if not fresh:
+            self.solver.set('timeout', 1500)
+            r = self.solver.check(*extra)
+            if r == z3.sat:
+                return r, self.solver.model()
+            if r == z3.unsat:
+                return r, None
+        s2 = z3.Solver()
+        s2.set('timeout', long_ms)
+        s2.add(*self.pc)
+        s2.add(*extra)
+        r = s2.check()
+        return r, (s2.model() if r == z3.sat else None)
+
     def feasible(self, cond):
         if cond is True:
             return True
         if cond is False:
             return False
-        self.solver_calls += 1
-        r = self.solver.check(cond)
+        r, _ = self.query(cond)
         if r == z3.unknown:
             raise NotEncodable('solver unknown on feasibility check')
         return r == z3.sat
@@ -1097,6 +1119,15 @@ def explore(make_machine, scenario, max_paths=200000, on_path=None, time_budget=
         try:
             r.value = scenario(m)
             r.status = 'ok'
+            if ctx.deferred:
+                # could any of the deferred panic conditions (arithmetic overflow) have fired?
+                res, model = ctx.query(z3.Or(*[c for c, _ in ctx.deferred]))
+                if res == z3.unknown:
+                    raise NotEncodable('solver unknown on deferred overflow conditions')
+                if res == z3.sat:
+                    msgs = [msg for c, msg in ctx.deferred if z3.is_true(model.eval(c, model_completion=True))]
+                    ctx.assume(z3.Or(*[c for c, _ in ctx.deferred]))
+                    raise Panic(msgs[0] if msgs else 'arithmetic overflow')
         except Panic as e:
             r.status, r.detail = 'panic', str(e)
         except PathAbort as e:
